@@ -1694,6 +1694,7 @@ pub fn hostile(seed: u64, out: &mut Outcome) {
     let only_a = rng.chance(1, 2);
     let mut late_retries_left = rng.below(3);
     let mut late_retries = 0u64;
+    let mut vn_retry = crate::scen_vnretry::VnAfterRetry::new(seed);
     let retry_crypto = server_config(0, TransportConfig::default(), &SimClock(Arc::new(std::sync::Mutex::new(std::time::UNIX_EPOCH)))).crypto;
     let caddr = sim.nodes[CLIENT].addr;
     let saddr = sim.nodes[SERVER].addr;
@@ -1744,6 +1745,7 @@ pub fn hostile(seed: u64, out: &mut Outcome) {
             if a_established_at.is_none() && sim.nodes[CLIENT].conns[&ch].obs.connected {
                 a_established_at = Some(sim.now);
             }
+            vn_retry.tick(sim, ch, caddr, saddr);
             // C14: a Retry with a VALID integrity tag (anyone who sees the CIDs can compute it) that reaches the
             // client after it has already processed a server packet must be discarded
             if late_retries_left > 0 && a_established_at.is_none() {
@@ -1870,6 +1872,7 @@ pub fn hostile(seed: u64, out: &mut Outcome) {
         let lost_a = sim.nodes[CLIENT].conns[&ch].obs.lost.clone();
         let lost_as = wa.ch[SERVER].map(|sch| sim.nodes[SERVER].conns[&sch].obs.lost.clone()).unwrap_or_default();
         a_up = a_established_at.is_some();
+        vn_retry.judge(&mut sim, &lost_a);
         if a_up && (!lost_a.is_empty() || !lost_as.is_empty()) {
             sim.fail("forged-packet-ended-connection", format!("connection A was established at {} ns and then lost: client {lost_a:?} server {lost_as:?}", a_established_at.unwrap()));
         }
@@ -1899,6 +1902,7 @@ pub fn hostile(seed: u64, out: &mut Outcome) {
     out.count("hostile-datagrams", injected);
     out.count("victim-established", a_up as u64);
     out.count("late-valid-retries", late_retries);
+    out.count("version-negotiation-after-followed-retry", vn_retry.injected);
     out.count("server-connections", sconns);
     for (k, v) in &kinds {
         out.count(&format!("mutation:{k}"), *v);
